@@ -23,6 +23,7 @@ def run(ctx, idx):
     ctx.rule("C04.d", "Every division with an array operand in a fuzzy producer has a Masked operand (A3/A4: zero denominators become missing cells, not infinities); a quotient of two scalars whose divisor is computed from the data is never combined with a whole array (nothing would be masked and nan survives the clamp).")
     found = set()
     n_ret = 0
+    undecided = []
     for key, (d, r) in sorted(R.results(idx).items()):
         if d.is_fuzzy is not True or not d.is_data():
             continue
@@ -43,6 +44,16 @@ def run(ctx, idx):
                     why = "only the %s side is bounded" % ("upper" if lo is None else "lower")
                 else:
                     why = "clamped to [%s, %s], not [-1, 1]" % (lo[1], hi[1])
+                if lo is None and hi is None and isinstance(s, ast.Return):
+                    # an unlimited return taken only when the caller gave none of the optional numbers (the bounds then come from
+                    # the data's own extremes): whether rounding can carry a value past the ends is a numerical question
+                    fi_ = d.execute
+                    cfg_ = K.cfg_of(idx, fi_)
+                    at = [x for x in cfg_.find("return") if x.stmt is s or x.ast is s]
+                    opt = {nm for nm, p_ in d.inputs.items() if not p_.required and p_.is_a(idx, "mpilot.params.NumberParameter")}
+                    if at and opt and all(opt <= K.absent_at(cfg_, x) for x in at):
+                        undecided.append("C04.a: %s returns at line %s without the clamp, on the path where none of %s was given: the bounds are then the data's own extremes, and whether the arithmetic can still leave [-1, 1] is a numerical question outside this analysis" % (d.cls.name, R.line_of(s), ", ".join(sorted(opt))))
+                        continue
                 ctx.violate("C04.a", con, d.module.rel, R.line_of(s), "fuzzy result can leave [-1, +1]: %s" % why)
         for rec in r.divisions:
             line, a, b, node, fk = rec[:5]
@@ -100,3 +111,5 @@ def run(ctx, idx):
         ctx.violate("C04.b", con, K.rel(fi), fi.node.lineno, why)
     calls = sum(1 for d, r in R.results(idx).values() for q, n, f in r.calls if q == "mpilot.utils.insure_fuzzy")
     ctx.floor("C04.b", "insure_fuzzy call sites reached from execute bodies", calls, 14)
+    if undecided:
+        raise AnalysisError(undecided[0])
